@@ -346,6 +346,17 @@ def _containers(sol_list):
 def _check_convert(case):
     t = case["type"]
     M = _make_labelled(case)
+    remap = case.get("remap")
+    if remap:
+        # a user-chosen enumeration (documented API): a permutation of 0..n-1 that is not the order of first
+        # appearance, handed over as a dict that is not listed in index order
+        labels = list(M.mapping)
+        m = len(labels)
+        perm = {"reverse": lambda i: m - 1 - i, "rotate": lambda i: (i + 1) % m}[remap.split(":")[0]]
+        if remap.endswith(":rev_api"):
+            M.set_reverse_mapping({perm(i): l for i, l in enumerate(labels)})
+        else:
+            M.set_mapping({l: perm(i) for i, l in enumerate(labels)})
     src = dict(M)
     mspin = t in SPIN_TYPES
     why = case.get("why", "")
@@ -406,6 +417,30 @@ def check_convert(case):
     form's value at s. The `spin` flag is left out, False or True when s is unambiguous (documented as ignored);
     for an all-ones (or empty) s only the truthful flag is used, plus the default when the documented default
     (False for boolean models, True for spin models) is truthful. Non-trivial: non-constant model."""
+    return _check_convert(case)
+
+
+def _gen_convert_remap(ctx):
+    rng = ctx.rng("c04.convert.remap")
+    n = ctx.pick(60, 1500)
+    for t in LABELLED:
+        k = _kind(t)
+        deg = 2 if k in ("qubo", "quso") else 3
+        pool_c = _pool(LABELS[:3], k, deg, False)
+        for remap in ("reverse", "rotate", "reverse:rev_api", "rotate:rev_api"):
+            yield {"type": t, "terms": {('b',): 1, ('a',): -2, ('a', 'b'): 3, (0,): 1}, "how": "ctor", "remap": remap}
+            yield {"type": t, "terms": {(1,): 1, (0,): 2, (1, 0): -1}, "how": "ctor", "remap": remap}
+            for i in range(n // 4):
+                yield {"type": t, "terms": _rand_terms(rng, pool_c, COEFS, 4, min_terms=2),
+                       "how": "ctor" if i % 2 else "edits", "remap": remap}
+
+
+@clause("C04.convert_solution_user_mapping", "C04", gen=_gen_convert_remap,
+        nontrivial=lambda c: len(variables_of(c["terms"])) >= 2)
+def check_convert_remap(case):
+    """Same contract as C04.convert_solution after the user replaced the enumeration by a permutation through
+    set_mapping / set_reverse_mapping (reversed or rotated indices; the dict handed over is not listed in index
+    order): the enumerated forms and convert_solution must both follow M.mapping. Non-trivial: >= 2 variables."""
     return _check_convert(case)
 
 
